@@ -92,32 +92,44 @@ DefIn(P, order, from, what) ==
 (***************************************************************************)
 Fail  == [ok |-> FALSE, bind |-> {}]
 Ok(b) == [ok |-> TRUE, bind |-> b]
-Tag(S, o) == {<<n, o>> : n \in S}
+
+\* owner labels (tables: constant definitions are evaluated once by TLC)
+MaxIdx == 12
+CLab == [x \in 0..MaxIdx |-> "C" \o Str(x)]
+PLab == [x \in 0..MaxIdx |-> "P" \o Str(x)]
+MLab == [x \in 0..MaxIdx |-> "M" \o Str(x)]
+FLab == [x \in 0..MaxIdx |-> [j \in 1..4 |-> "F" \o Str(x) \o "." \o Str(j)]]
+QLab == [x \in 0..MaxIdx |-> [j \in 1..4 |-> "Q" \o Str(x) \o "." \o Str(j)]]
+
+\* a binding is the DECLARATION that received the keyword: [o, n, t, d]
+Decl(o, p)    == [o |-> o, n |-> p.n, t |-> p.t, d |-> p.d]
+PopDecl(o, n) == [o |-> o, n |-> n, t |-> "none", d |-> "dflt"]       \* kwargs.pop("n", dflt): no annotation, a default
+Named(sig, o, K) == {Decl(o, sig.ps[i]) : i \in {j \in DOMAIN sig.ps : sig.ps[j].n \in K}}
+Pops(o, S)       == {PopDecl(o, n) : n \in S}
 
 \* binding keyword arguments to a def (CPython: unexpected keyword / missing required argument)
 Arrive(sig, K) == LET own == NamesOf(sig.ps) IN
-  [ok |-> (K \subseteq own \/ sig.kw) /\ ReqOf(sig.ps) \subseteq K, named |-> K \cap own, rest |-> K \ own]
+  [ok |-> (K \subseteq own \/ sig.kw) /\ ReqOf(sig.ps) \subseteq K, rest |-> K \ own]
 
 \* f(h=..., **kwargs): a keyword both hard-coded and present in kwargs is "multiple values for keyword argument";
 \* what the callee binds for the hard-coded names was not passed by our caller
-Back(r, mine, hard) == IF r.ok THEN Ok(mine \cup {b \in r.bind : b[1] \notin hard}) ELSE Fail
+Back(r, mine, hard) == IF r.ok THEN Ok(mine \cup {b \in r.bind : b.n \notin hard}) ELSE Fail
 
 RECURSIVE RefFn(_, _, _, _)
 RefFn(chain, j, cid, K) ==
   LET s      == chain[j]
       a      == Arrive(s, K)
-      lab    == Str(cid) \o "." \o Str(j)
       popped == a.rest \cap SetOf(s.fw.q)
-      mine   == Tag(a.named, "F" \o lab) \cup Tag(popped, "Q" \o lab)
+      mine   == Named(s, FLab[cid][j], K) \cup Pops(QLab[cid][j], popped)
       rest   == IF s.fw.qop = "pop" THEN a.rest \ popped ELSE a.rest
       hard   == SetOf(s.fw.hard)
   IN IF ~a.ok THEN Fail
-     ELSE IF ~s.kw THEN Ok(Tag(a.named, "F" \o lab))
+     ELSE IF ~s.kw THEN Ok(Named(s, FLab[cid][j], K))
      ELSE IF s.fw.k = "ignore" THEN Ok(mine)
      ELSE IF hard \cap rest # {} \/ j >= Len(chain) THEN Fail
      ELSE Back(RefFn(chain, j + 1, cid, rest \cup hard), mine, hard)
 
-RefMeth(P, Y, K) == LET a == Arrive(P.classes[Y].m, K) IN IF a.ok THEN Ok(Tag(a.named, "M" \o Str(Y))) ELSE Fail
+RefMeth(P, Y, K) == LET a == Arrive(P.classes[Y].m, K) IN IF a.ok THEN Ok(Named(P.classes[Y].m, MLab[Y], K)) ELSE Fail
 
 \* the __init__ that runs when the search starts at position pos of the runtime MRO `mro` of the instantiated class
 RECURSIVE RefInit(_, _, _, _)
@@ -129,12 +141,12 @@ RefInit(P, mro, pos, K) ==
            a  == Arrive(I, K)
            fw == I.fw
            popped == a.rest \cap SetOf(fw.q)
-           mine   == Tag(a.named, "C" \o Str(X)) \cup Tag(popped, "P" \o Str(X))
+           mine   == Named(I, CLab[X], K) \cup Pops(PLab[X], popped)
            rest   == IF fw.qop = "pop" THEN a.rest \ popped ELSE a.rest
            hard   == SetOf(fw.hard)
            send   == rest \cup hard
        IN IF ~a.ok THEN Fail
-          ELSE IF ~I.kw THEN Ok(Tag(a.named, "C" \o Str(X)))
+          ELSE IF ~I.kw THEN Ok(Named(I, CLab[X], K))
           ELSE IF fw.k = "ignore" THEN Ok(mine)
           ELSE IF hard \cap rest # {} THEN Fail
           ELSE CASE fw.k = "super0" -> Back(RefInit(P, mro, k + 1, send), mine, hard)
@@ -150,40 +162,37 @@ Run(P, comp, K) == IF comp.k = "cls" THEN RefInit(P, Mro(P, comp.c), 1, K) ELSE 
 (***************************************************************************)
 (* Ref layer 3: the property's vocabulary, derived from the call semantics *)
 (* over the keyword universe U (every name of the program + a fresh one).  *)
+(* RunTable evaluates the call once for every keyword set; the derived     *)
+(* notions take the table T.                                               *)
 (***************************************************************************)
-OKSets(P, comp, U)    == {K \in SUBSET U : Run(P, comp, K).ok}
-Callable(P, comp, U)  == OKSets(P, comp, U) # {}                                    \* some call succeeds
-Required(P, comp, U)  == {n \in U : \A K \in OKSets(P, comp, U) : n \in K}
-Accepted(P, comp, U)  == UNION OKSets(P, comp, U)                                   \* no TypeError when passed
-Bindings(P, comp, U)  == UNION {Run(P, comp, K).bind : K \in OKSets(P, comp, U)}    \* <<name, owner>>
-LegalKw(P, comp, U)   == {b[1] : b \in Bindings(P, comp, U)}                        \* the NAMED parameters a call can pass
-
-\* every declaration of the program: [o, n, t, d]
-ChainDecls(chain, cid) ==
-  UNION {{[o |-> "F" \o Str(cid) \o "." \o Str(j), n |-> chain[j].ps[i].n, t |-> chain[j].ps[i].t, d |-> chain[j].ps[i].d] : i \in DOMAIN chain[j].ps}
-         \cup {[o |-> "Q" \o Str(cid) \o "." \o Str(j), n |-> n, t |-> "none", d |-> "dflt"] : n \in (IF chain[j].kw THEN SetOf(chain[j].fw.q) ELSE {})}
-         : j \in DOMAIN chain}
-ClassDecls(P, c) ==
-  LET cl == P.classes[c] IN
-     {[o |-> "C" \o Str(c), n |-> cl.init.ps[i].n, t |-> cl.init.ps[i].t, d |-> cl.init.ps[i].d] : i \in DOMAIN cl.init.ps}
-  \cup {[o |-> "P" \o Str(c), n |-> n, t |-> "none", d |-> "dflt"] : n \in (IF cl.init.has /\ cl.init.kw THEN SetOf(cl.init.fw.q) ELSE {})}
-  \cup {[o |-> "M" \o Str(c), n |-> cl.m.ps[i].n, t |-> cl.m.ps[i].t, d |-> cl.m.ps[i].d] : i \in DOMAIN cl.m.ps}
-  \cup (IF cl.init.has /\ cl.init.kw THEN ChainDecls(cl.init.fw.chain, c) ELSE {})
-Decls(P, comp) == IF comp.k = "fn" THEN ChainDecls(comp.chain, 0) ELSE UNION {ClassDecls(P, c) : c \in DOMAIN P.classes}
-
+RunTable(P, comp, U) ==
+  IF comp.k = "cls" THEN LET mro == Mro(P, comp.c) IN {[K |-> K, r |-> RefInit(P, mro, 1, K)] : K \in SUBSET U}
+  ELSE {[K |-> K, r |-> RefFn(comp.chain, 1, 0, K)] : K \in SUBSET U}
+Succ(T)      == {x \in T : x.r.ok}                                    \* the calls that succeed
+OKSets(T)    == {e.K : e \in Succ(T)}
+Callable(T)  == Succ(T) # {}                                          \* some call succeeds (a set test: safe inside actions)
+Required(T)  == LET ok == OKSets(T) IN {n \in UNION ok : \A K \in ok : n \in K}
+Accepted(T)  == UNION OKSets(T)                                       \* no TypeError when passed
+Bindings(T)  == UNION {e.r.bind : e \in Succ(T)}                      \* declarations [o, n, t, d] that can receive a keyword
+LegalKw(T)   == {b.n : b \in Bindings(T)}                             \* the NAMED parameters a call can pass
 \* what the property says must be offered: each legal name with the type and default of the signature it is bound in
-RefOffer(P, comp, U) == {d \in Decls(P, comp) : <<d.n, d.o>> \in Bindings(P, comp, U)}
+RefOffer(T)  == Bindings(T)
+
+\* the keyword universe of a program: every name that occurs in it (declared, popped, hard-coded) and one that does not
+ChainNames(chain) == UNION {NamesOf(chain[j].ps) \cup SetOf(chain[j].fw.q) \cup SetOf(chain[j].fw.hard) : j \in DOMAIN chain}
+ClassNames(cl)    == NamesOf(cl.init.ps) \cup NamesOf(cl.m.ps) \cup SetOf(cl.init.fw.q) \cup SetOf(cl.init.fw.hard) \cup ChainNames(cl.init.fw.chain)
+Universe(P, comp) == {"zz"} \cup (IF comp.k = "fn" THEN ChainNames(comp.chain) ELSE UNION {ClassNames(P.classes[c]) : c \in DOMAIN P.classes})
 
 \* laws of the reference itself (checked by TLC on the bounded instance; they are what makes "the set of legal
 \* keywords" well defined: keywords are routed independently of each other)
-LawIndependent(P, comp, U) ==
-  \A K \in SUBSET U : Run(P, comp, K).ok <=> (Required(P, comp, U) \subseteq K /\ K \subseteq Accepted(P, comp, U))
-LawAllOffered(P, comp, U) ==       \* instantiating with EVERY legal parameter does not raise
-  Callable(P, comp, U) => Run(P, comp, Required(P, comp, U) \cup LegalKw(P, comp, U)).ok
-LawOneOwner(P, comp, U) ==         \* a keyword is bound in one place, whatever else is passed
-  \A b1, b2 \in Bindings(P, comp, U) : b1[1] = b2[1] => b1 = b2
-LawStableOwner(P, comp, U) ==
-  \A K \in OKSets(P, comp, U) : Run(P, comp, K).bind = {b \in Bindings(P, comp, U) : b[1] \in K}
+LawIndependent(T) ==      \* the accepted keyword sets are exactly those between the required and the accepted names
+  Callable(T) => LET req == Required(T)  acc == Accepted(T) IN \A e \in T : e.r.ok <=> (req \subseteq e.K /\ e.K \subseteq acc)
+LawAllOffered(T) ==       \* instantiating with EVERY legal parameter does not raise
+  Callable(T) => LET all == Required(T) \cup LegalKw(T) IN \E e \in T : e.K = all /\ e.r.ok
+LawOneOwner(T) ==         \* a keyword is bound in one place, whatever else is passed
+  LET B == Bindings(T) IN \A b1, b2 \in B : b1.n = b2.n => b1 = b2
+LawStableOwner(T) ==
+  LET B == Bindings(T) IN \A e \in Succ(T) : e.r.bind = {b \in B : b.n \in e.K}
 
 (***************************************************************************)
 (* Alg layer: _parameter_resolvers.py                                      *)
@@ -195,18 +204,39 @@ LawStableOwner(P, comp, U) ==
 (* The context variable current_mro (457) is threaded through as           *)
 (*   ms = [cl |-> <<classes>>, ix |-> position]   (cl = << >>: (None,None))*)
 (* because get_mro_parameters / ast_is_supported_super_call .set() it and  *)
-(* only mro_context resets it.  Every resolution returns [ps, ms].         *)
+(* only mro_context resets it.  Every resolution returns                   *)
+(*   [ps, ms, ev, crash]: parameters, context variable afterwards, the set *)
+(*   of named deviations met on the way, and whether the AST resolver      *)
+(*   raised (get_signature_parameters then falls back, 1115-1133).         *)
+(* PT is the program with one more field: PT.top = the class the question  *)
+(* is about (0 for a function), used only to NAME deviation D1.            *)
+(*                                                                         *)
+(* Named deviations of the code from the property (recorded findings, see  *)
+(* tools/findings.d/C13.json); the invariant of MC_Resolver is             *)
+(*     no deviation on the walk  =>  the offer is exactly Ref's.           *)
+(* (D1) "static-dispatch": the visitor of an __init__ reached through      *)
+(*      super() resolves self.m on the class that DEFINES that __init__    *)
+(*      (get_node_component:655-658, self.parent); Python on type(self).   *)
+(* (D2) "pop-then-hard": `v = kwargs.pop("n", d); target(n=f(v), **kwargs)`*)
+(*      remove_given_parameters puts n into removed_params (272-273) and   *)
+(*      line 817 then also drops the POPPED parameter n, which a caller    *)
+(*      can pass.                                                          *)
+(* (D3) "cond-regroup": group_parameters:422 calls .startswith on the      *)
+(*      origin of the first parameter of every list; for a conditional     *)
+(*      parameter that origin is a tuple, AttributeError escapes, the AST  *)
+(*      resolver is abandoned and get_parameters_by_assumptions answers.   *)
 (***************************************************************************)
 NoMro == [cl |-> << >>, ix |-> 0]
 PD(p, o) == [n |-> p.n, t |-> p.t, d |-> p.d, o |-> o, kind |-> "pk", org |-> "-"]
-Res(ps, ms) == [ps |-> ps, ms |-> ms]
+Res(ps, ms, ev) == [ps |-> ps, ms |-> ms, ev |-> ev, crash |-> FALSE]
+Crashed(ms, ev) == [ps |-> << >>, ms |-> ms, ev |-> ev \cup {"cond-regroup"}, crash |-> TRUE]
 
 \* get_signature_parameters_and_indexes:281-301   inspect.signature without self and without **kwargs
 OwnParams(sig, o) == [i \in DOMAIN sig.ps |-> PD(sig.ps[i], o)]
 
 \* remove_given_parameters:266-274  (keyword names only: the grammar has no hard-coded positionals)
 RemoveGiven(hard, ps) == SelectSeq(ps, LAMBDA p : p.n \notin hard)
-RemovedBy(hard, ps)   == IF Len(RemoveGiven(hard, ps)) < Len(ps) THEN {p \in SetOf(ps) : p.n \in hard} ELSE {}
+RemovedBy(hard, ps)   == IF Len(RemoveGiven(hard, ps)) < Len(ps) THEN {p.n : p \in {x \in SetOf(ps) : x.n \in hard}} ELSE {}
 
 \* add_node_origins:839-845
 AddNodeOrigins(ps) == [i \in DOMAIN ps |-> IF ps[i].org = "-" THEN [ps[i] EXCEPT !.org = "node"] ELSE ps[i]]
@@ -220,6 +250,7 @@ Flatten(lists) == LET RECURSIVE F(_)
                   IN F(1)
 FirstOcc(flat) == SelectSeq([i \in DOMAIN flat |-> IF \E j \in 1..(i - 1) : flat[j].n = flat[i].n THEN [flat[i] EXCEPT !.n = "?dup?"] ELSE flat[i]],
                             LAMBDA p : p.n # "?dup?")
+GroupRaises(lists) == Len(lists) > 1 /\ \E i \in DOMAIN lists : lists[i][1].org = "cond"    \* 422: tuple.startswith
 GroupParameters(lists) ==
   IF Len(lists) = 1 THEN [i \in DOMAIN lists[1] |-> IF lists[1][i].org = "cond" THEN lists[1][i] ELSE [lists[1][i] EXCEPT !.org = "-"]]
   ELSE LET nonpg == Cardinality({i \in DOMAIN lists : lists[i][1].org # "pg"})              \* non_get_pop_count
@@ -240,129 +271,107 @@ TokenSet(parent, ms)    == ms.cl = << >> \/ ms.cl[ms.ix] # parent
 \* getattr_static(cls, name) / getattr(cls, name): the defining class in cls's OWN mro, 0 = object's slot
 DefOf(P, c, what) == LET o == Mro(P, c)  k == DefIn(P, o, 1, what) IN IF k = 0 THEN 0 ELSE o[k]
 
-RECURSIVE AlgClass(_, _, _, _)
-RECURSIVE AlgFn(_, _, _, _)
-RECURSIVE AlgKwargs(_, _, _, _, _, _)
-
-\* get_mro_parameters:475-483   next class after current_mro's index whose __init__ is not merely inherited from a
-\* class further down the list
-AlgMroParams(P, ms) ==
+\* get_mro_parameters:475-483   the next class after current_mro's index whose __init__ is not merely inherited from a
+\* class further down the list; 0 = none
+NextInMro(P, ms) ==
   LET cand == {num \in (ms.ix + 1)..Len(ms.cl) :
                  LET d == DefOf(P, ms.cl[num], "init") IN
                  d # 0 /\ ~\E j \in (num + 1)..Len(ms.cl) : DefOf(P, ms.cl[j], "init") = d}
-  IN IF cand = {} THEN Res(<< >>, ms)
-     ELSE LET num == MinOf(cand) IN AlgClass(P, ms.cl[num], "init", [ms EXCEPT !.ix = num])
+  IN IF cand = {} THEN 0 ELSE MinOf(cand)
+
+\* get_parameters_by_assumptions:1074-1091   the fallback: every **kwargs is assumed to go to the next __init__ in the MRO
+RECURSIVE AssumeClass(_, _, _)
+AssumeClass(PT, parent, ms) ==
+  LET X   == DefOf(PT, parent, "init")
+      I   == PT.classes[X].init
+      own == OwnParams(I, CLab[X])
+  IN IF ~I.kw THEN Res(own, ms, {})
+     ELSE LET inner == EnterMro(PT, parent, ms)
+              num   == NextInMro(PT, inner)
+              sub   == IF num = 0 THEN Res(<< >>, inner, {}) ELSE AssumeClass(PT, inner.cl[num], [inner EXCEPT !.ix = num])
+          IN Res(ReplaceKw(own, sub.ps), IF TokenSet(parent, ms) THEN ms ELSE sub.ms, {})
+
+RECURSIVE GspClass(_, _, _, _)
+RECURSIVE GspFn(_, _, _, _)
+RECURSIVE AstKwargs(_, _, _, _, _, _)
 
 \* get_parameters_args_and_kwargs:763-818 for one def.  parent = the class whose visitor this is (0 for a function),
-\* X = owner index used in labels, lab = label suffix
-AlgKwargs(P, parent, fw, ms, plab, chainctx) ==
+\* plab = owner label of its pop/get parameters, ctx = the helper chain the def belongs to / calls
+AstKwargs(PT, parent, fw, ms, plab, ctx) ==
   LET hard    == SetOf(fw.hard)
       \* 781-786 + get_kwargs_pop_or_get_parameter:741-761   one single-parameter list per pop/get call, in source order
       poplists == [i \in DOMAIN fw.q |-> << [n |-> fw.q[i], t |-> "none", d |-> "dflt", o |-> plab, kind |-> "ko", org |-> "pg"] >>]
-      \* 787-805  the call that receives **kwargs
+      \* 787-805  the call that receives **kwargs; each target is asked through get_signature_parameters
       call ==
-        CASE fw.k = "ignore" -> Res(<< >>, ms)
-          [] fw.k = "super0" -> AlgMroParams(P, ms)                                     \* 217-221: super() is supported
+        CASE fw.k = "ignore" -> Res(<< >>, ms, {})
+          [] fw.k = "super0" ->                                                          \* 217-221: super() is supported
+               LET num == NextInMro(PT, ms) IN
+               IF num = 0 THEN Res(<< >>, ms, {}) ELSE GspClass(PT, ms.cl[num], "init", [ms EXCEPT !.ix = num])
           [] fw.k = "superB" ->                                                          \* 222-235: search classes[idx:] for B
                LET offs == {i \in ms.ix..Len(ms.cl) : ms.cl[i] = fw.b} IN
-               IF ms.cl = << >> \/ offs = {} THEN Res(<< >>, ms)                         \* unsupported super parameters
-               ELSE AlgMroParams(P, [ms EXCEPT !.ix = MinOf(offs)])
-          [] fw.k = "func"   -> IF Len(fw.chain) = 0 THEN Res(<< >>, ms) ELSE AlgFn(fw.chain, 1, chainctx.cid, [P |-> P, ms |-> ms])
-          [] fw.k = "meth"   -> AlgClass(P, parent, "m", ms)                             \* get_node_component:655-658  self.parent
-          [] fw.k = "next"   -> IF chainctx.j >= Len(chainctx.chain) THEN Res(<< >>, ms)
-                                ELSE AlgFn(chainctx.chain, chainctx.j + 1, chainctx.cid, [P |-> P, ms |-> ms])
-          [] OTHER           -> Res(<< >>, ms)
+               IF ms.cl = << >> \/ offs = {} THEN Res(<< >>, ms, {})                     \* unsupported super parameters
+               ELSE LET ms2 == [ms EXCEPT !.ix = MinOf(offs)]
+                        num == NextInMro(PT, ms2)
+                    IN IF num = 0 THEN Res(<< >>, ms2, {}) ELSE GspClass(PT, ms2.cl[num], "init", [ms2 EXCEPT !.ix = num])
+          [] fw.k = "func"   -> IF Len(fw.chain) = 0 THEN Res(<< >>, ms, {}) ELSE GspFn(fw.chain, 1, ctx.cid, [PT |-> PT, ms |-> ms])
+          [] fw.k = "meth"   ->                                                          \* get_node_component:655-658  self.parent
+               LET r == GspClass(PT, parent, "m", ms) IN
+               IF PT.top # 0 /\ DefOf(PT, parent, "m") # DefOf(PT, PT.top, "m") THEN [r EXCEPT !.ev = @ \cup {"static-dispatch"}] ELSE r
+          [] fw.k = "next"   -> IF ctx.j >= Len(ctx.chain) THEN Res(<< >>, ms, {})
+                                ELSE GspFn(ctx.chain, ctx.j + 1, ctx.cid, [PT |-> PT, ms |-> ms])
+          [] OTHER           -> Res(<< >>, ms, {})
       given   == RemoveGiven(hard, call.ps)                                              \* 802
-      removed == {p.n : p \in RemovedBy(hard, call.ps)}                                  \* removed_params
+      removed == RemovedBy(hard, call.ps)                                                \* removed_params
       lists   == poplists \o (IF Len(given) > 0 THEN << AddNodeOrigins(given) >> ELSE << >>)   \* 803-805
-      grouped == IF Len(lists) = 0 THEN << >> ELSE GroupParameters(lists)                \* 816
-  IN Res(SelectSeq(grouped, LAMBDA p : p.n \notin removed), call.ms)                     \* 817-818 (no positional-only)
+      ev      == call.ev \cup (IF removed \cap SetOf(fw.q) # {} THEN {"pop-then-hard"} ELSE {})
+  IN IF Len(lists) = 0 THEN Res(<< >>, call.ms, ev)
+     ELSE IF GroupRaises(lists) THEN Crashed(call.ms, ev)                                \* 816 -> 422 raises
+     ELSE Res(SelectSeq(GroupParameters(lists), LAMBDA p : p.n \notin removed), call.ms, ev)   \* 816-818 (no positional-only)
 
-\* ParametersVisitor.get_parameters:867-883 for a function of a chain (no parent: mro_context does nothing)
-AlgFn(chain, j, cid, env) ==
+\* ParametersVisitor.get_parameters:867-883 for a function of a chain (no parent: mro_context does nothing),
+\* inside get_signature_parameters:1115-1133 (an exception of the AST resolver selects the assumptions resolver,
+\* which for a function returns its own named parameters)
+GspFn(chain, j, cid, env) ==
   LET s    == chain[j]
-      lab  == Str(cid) \o "." \o Str(j)
-      own  == OwnParams(s, "F" \o lab)
-  IN IF ~s.kw THEN Res(own, env.ms)
-     ELSE LET r == AlgKwargs(env.P, 0, s.fw, env.ms, "Q" \o lab, [chain |-> chain, j |-> j, cid |-> cid])
-          IN Res(ReplaceKw(own, r.ps), r.ms)
+      own  == OwnParams(s, FLab[cid][j])
+  IN IF ~s.kw THEN Res(own, env.ms, {})
+     ELSE LET r == AstKwargs(env.PT, 0, s.fw, env.ms, QLab[cid][j], [chain |-> chain, j |-> j, cid |-> cid])
+          IN IF r.crash THEN Res(own, r.ms, r.ev) ELSE Res(ReplaceKw(own, r.ps), r.ms, r.ev)
 
-\* get_component_and_parent:486-527 + get_parameters:867-883 for (class, "__init__") and (class, "m")
-AlgClass(P, parent, what, ms) ==
-  LET X == DefOf(P, parent, what) IN                      \* inspect.getattr_static(parent, name)
-  IF X = 0 THEN Res(<< >>, ms)                            \* object.__init__: component None -> []
-  ELSE IF what = "m" THEN Res(OwnParams(P.classes[X].m, "M" \o Str(X)), ms)
-  ELSE LET I   == P.classes[X].init
-           own == OwnParams(I, "C" \o Str(X))
-       IN IF ~I.kw THEN Res(own, ms)
-          ELSE LET inner == EnterMro(P, parent, ms)                                         \* with mro_context(self.parent)
-                   r     == AlgKwargs(P, parent, I.fw, inner, "P" \o Str(X), [chain |-> I.fw.chain, j |-> 0, cid |-> X])
-               IN Res(ReplaceKw(own, r.ps), IF TokenSet(parent, ms) THEN ms ELSE r.ms)       \* current_mro.reset(token)
+\* get_component_and_parent:486-527 + get_parameters:867-883 for (class, "__init__") and (class, "m"), inside
+\* get_signature_parameters:1115-1133
+GspClass(PT, parent, what, ms) ==
+  LET X == DefOf(PT, parent, what) IN                     \* inspect.getattr_static(parent, name)
+  IF X = 0 THEN Res(<< >>, ms, {})                        \* object.__init__: component None -> []
+  ELSE IF what = "m" THEN Res(OwnParams(PT.classes[X].m, MLab[X]), ms, {})
+  ELSE LET I   == PT.classes[X].init
+           own == OwnParams(I, CLab[X])
+       IN IF ~I.kw THEN Res(own, ms, {})
+          ELSE LET inner == EnterMro(PT, parent, ms)                                        \* with mro_context(self.parent)
+                   r     == AstKwargs(PT, parent, I.fw, inner, PLab[X], [chain |-> I.fw.chain, j |-> 0, cid |-> X])
+                   after == IF TokenSet(parent, ms) THEN ms ELSE r.ms                       \* finally: current_mro.reset(token)
+               IN IF r.crash THEN LET a == AssumeClass(PT, parent, after) IN Res(a.ps, a.ms, r.ev)
+                  ELSE Res(ReplaceKw(own, r.ps), after, r.ev)
 
-\* get_signature_parameters:1094-1134 (the AST resolver answers for every program of the grammar)
-AlgResolve(P, comp) == IF comp.k = "cls" THEN AlgClass(P, comp.c, "init", NoMro).ps
-                       ELSE AlgFn(comp.chain, 1, 0, [P |-> P, ms |-> NoMro]).ps
-
-AlgNames(P, comp) == NamesOf(AlgResolve(P, comp))
-\* the resolved parameters as declarations [o, n, t, d] (conditional ones keep d = "cond")
-AlgOffer(P, comp) == LET ps == AlgResolve(P, comp) IN {[o |-> ps[i].o, n |-> ps[i].n, t |-> ps[i].t, d |-> ps[i].d] : i \in DOMAIN ps}
-AlgNoDup(P, comp) == LET ps == AlgResolve(P, comp) IN \A i, j \in DOMAIN ps : ps[i].n = ps[j].n => i = j
-
-(***************************************************************************)
-(* Named deviations of the code from the property (each is a recorded      *)
-(* finding; see tools/findings.d/C13.json).  The invariant of MC_Resolver   *)
-(* is  no deviation applies => AlgOffer = RefOffer.                         *)
-(***************************************************************************)
-\* (D1) static dispatch of self.m: the visitor of an __init__ reached through super() looks m up on the class that
-\*      DEFINES that __init__ (get_node_component:655-658 uses self.parent), Python on type(self).
-\* (D2) pop-then-hard-code: `v = kwargs.pop("n", d); target(n=f(v), **kwargs)`: remove_given_parameters puts n into
-\*      removed_params and line 817 then also drops the popped parameter n, which the caller CAN pass.
-\* Both are decided on the path the resolver walks; they are computed by re-running the walk.
-RECURSIVE PathInits(_, _, _, _)
-\* the (parent, defining class) pairs of the __init__ defs the resolver visits from (parent, ms) on, following super
-PathInits(P, parent, ms, fuel) ==
-  LET X == DefOf(P, parent, "init") IN
-  IF X = 0 \/ fuel = 0 THEN {}
-  ELSE LET I == P.classes[X].init
-           inner == EnterMro(P, parent, ms)
-           nxt(ms2) == LET cand == {num \in (ms2.ix + 1)..Len(ms2.cl) :
-                                       LET d == DefOf(P, ms2.cl[num], "init") IN
-                                       d # 0 /\ ~\E j \in (num + 1)..Len(ms2.cl) : DefOf(P, ms2.cl[j], "init") = d}
-                       IN IF cand = {} THEN {} ELSE PathInits(P, ms2.cl[MinOf(cand)], [ms2 EXCEPT !.ix = MinOf(cand)], fuel - 1)
-       IN {<<parent, X>>} \cup
-          (IF ~I.kw THEN {}
-           ELSE IF I.fw.k = "super0" THEN nxt(inner)
-           ELSE IF I.fw.k = "superB" THEN
-                  LET offs == {i \in inner.ix..Len(inner.cl) : inner.cl[i] = I.fw.b} IN
-                  IF offs = {} THEN {} ELSE nxt([inner EXCEPT !.ix = MinOf(offs)])
-           ELSE {})
-Visited(P, c) == PathInits(P, c, NoMro, Len(P.classes) + 1)
-
-DevStaticDispatch(P, comp) ==
-  comp.k = "cls" /\ \E pr \in Visited(P, comp.c) :
-     LET I == P.classes[pr[2]].init IN
-     I.kw /\ I.fw.k = "meth" /\ DefOf(P, pr[1], "m") # DefOf(P, comp.c, "m")
-
-PopThenHard(fw) == SetOf(fw.q) \cap SetOf(fw.hard) # {} /\ fw.k \notin {"ignore"}
-DevPopThenHard(P, comp) ==
-  IF comp.k = "fn" THEN \E j \in DOMAIN comp.chain : comp.chain[j].kw /\ PopThenHard(comp.chain[j].fw)
-  ELSE \E pr \in Visited(P, comp.c) :
-         LET I == P.classes[pr[2]].init IN
-         I.kw /\ (PopThenHard(I.fw) \/ (I.fw.k = "func" /\ \E j \in DOMAIN I.fw.chain : I.fw.chain[j].kw /\ PopThenHard(I.fw.chain[j].fw)))
-
-Deviation(P, comp) == IF DevStaticDispatch(P, comp) THEN "static-dispatch"
-                      ELSE IF DevPopThenHard(P, comp) THEN "pop-then-hard" ELSE "-"
+\* get_signature_parameters:1094-1134
+AlgRun(P, comp) == IF comp.k = "cls" THEN GspClass([classes |-> P.classes, top |-> comp.c], comp.c, "init", NoMro)
+                   ELSE GspFn(comp.chain, 1, 0, [PT |-> [classes |-> P.classes, top |-> 0], ms |-> NoMro])
+AlgResolve(P, comp) == AlgRun(P, comp).ps
+AlgNames(P, comp)   == NamesOf(AlgResolve(P, comp))
+DevOf(ev) == IF "static-dispatch" \in ev THEN "static-dispatch"
+             ELSE IF "cond-regroup" \in ev THEN "cond-regroup"
+             ELSE IF "pop-then-hard" \in ev THEN "pop-then-hard" ELSE "-"
+Deviation(P, comp)  == DevOf(AlgRun(P, comp).ev)
 
 (***************************************************************************)
 (* The property, and the relation between the layers                       *)
 (***************************************************************************)
-\* names: exactly the legal ones
-NamesExact(P, comp, U) == AlgNames(P, comp) = LegalKw(P, comp, U)
-\* type and default of the signature the name is bound in; a parameter that the resolver reports as conditional
-\* (documented: several uses of **kwargs disagree) only has to be legal and to come from one of its owners
-OfferAgrees(P, comp, U) ==
-  LET ref == RefOffer(P, comp, U)  alg == AlgOffer(P, comp) IN
+\* names: exactly the legal ones; type and default: those of the signature the name is bound in.  A parameter that
+\* the resolver reports as conditional (documented: several uses of **kwargs disagree) only has to be legal.
+OfferAgrees(ref, alg) ==
   /\ {d.n : d \in alg} = {d.n : d \in ref}
   /\ \A d \in alg : d.d = "cond" \/ d \in ref
-C13Holds(P, comp, U) == Callable(P, comp, U) => (AlgNoDup(P, comp) /\ OfferAgrees(P, comp, U))
+NoDup(ps) == \A i, j \in DOMAIN ps : ps[i].n = ps[j].n => i = j
+OfferOf(ps) == {[o |-> ps[i].o, n |-> ps[i].n, t |-> ps[i].t, d |-> ps[i].d] : i \in DOMAIN ps}
+C13Holds(P, comp, T) == Callable(T) => LET ps == AlgResolve(P, comp) IN NoDup(ps) /\ OfferAgrees(RefOffer(T), OfferOf(ps))
 =============================================================================
